@@ -113,6 +113,52 @@ type c13Fin struct {
 type c13Pipe struct {
 	Authz []c13Cond `json:"authz"`
 	Fin   []c13Fin  `json:"fin"`
+	Deny  bool      `json:"deny"` // the `unauthorized` authenticator instead of the anonymous one
+	Comm  bool      `json:"comm"` // a generic contextualizer whose endpoint nobody listens on
+}
+
+// c13Respond is the `respond` block of serve.decision and serve.proxy (the Envoy gRPC service uses the block of the
+// decision service).
+type c13Respond struct {
+	Verbose bool `json:"verbose"`
+	Codes   struct {
+		Accepted       int `json:"accepted"`
+		Argument       int `json:"argument"`
+		Authentication int `json:"authentication"`
+		Authorization  int `json:"authorization"`
+		Communication  int `json:"communication"`
+		Internal       int `json:"internal"`
+		NoRule         int `json:"norule"`
+	} `json:"codes"`
+}
+
+func c13Or(code, dflt int) int {
+	if code == 0 {
+		return dflt
+	}
+
+	return code
+}
+
+// class answered with the given status under the response configuration (the generator keeps the codes of the
+// classes pairwise different)
+func (r *c13Respond) class(status int) string {
+	switch status {
+	case c13Or(r.Codes.NoRule, http.StatusNotFound):
+		return "norule"
+	case c13Or(r.Codes.Argument, http.StatusBadRequest):
+		return "argument"
+	case c13Or(r.Codes.Authentication, http.StatusUnauthorized):
+		return "authentication"
+	case c13Or(r.Codes.Authorization, http.StatusForbidden):
+		return "authorization"
+	case c13Or(r.Codes.Communication, http.StatusBadGateway):
+		return "communication"
+	case c13Or(r.Codes.Internal, http.StatusInternalServerError):
+		return "internal"
+	}
+
+	return "status-" + strconv.Itoa(status)
 }
 
 type c13Req struct {
@@ -303,8 +349,13 @@ func c13CEL(p c13Probe) string {
 func c13CondExpr(c c13Cond) string { return c13CEL(c.P) + " == " + c13Quote(c.Eq) }
 
 func c13Execute(p c13Pipe) []any {
+	authn := "c13-anon"
+	if p.Deny {
+		authn = "c13-deny"
+	}
+
 	exec := []any{
-		map[string]any{"authenticator": "c13-anon"},
+		map[string]any{"authenticator": authn},
 		map[string]any{"authorizer": "c13-spy"},
 	}
 
@@ -315,6 +366,10 @@ func c13Execute(p c13Pipe) []any {
 		}
 
 		exec = append(exec, map[string]any{"authorizer": "c13-cel", "config": map[string]any{"expressions": exprs}})
+	}
+
+	if p.Comm {
+		exec = append(exec, map[string]any{"contextualizer": "c13-comm"})
 	}
 
 	for _, f := range p.Fin {
@@ -379,14 +434,22 @@ type c13Upstream struct {
 	cookies []*http.Cookie
 }
 
-type c13Services struct {
+// c13Stack: the three services started with one response configuration
+type c13Stack struct {
 	decision, decisionTLS string
 	proxy, proxyTLS       string
 	envoy                 envoy_auth.AuthorizationClient
 	decSwitch, prxSwitch  *c13Switch
-	upstream              *httptest.Server
-	up                    *c13Upstream
-	mechs                 mechanisms.MechanismFactory
+}
+
+type c13Services struct {
+	*c13Stack // of the case at hand
+
+	stacks   map[string]*c13Stack // by response configuration
+	tlsCfg   *tls.Config
+	upstream *httptest.Server
+	up       *c13Upstream
+	mechs    mechanisms.MechanismFactory
 }
 
 var (
@@ -421,8 +484,17 @@ func c13TLSConfig() (*tls.Config, error) {
 }
 
 func c13Start() (*c13Services, error) {
-	svc := &c13Services{decSwitch: &c13Switch{}, prxSwitch: &c13Switch{}, up: &c13Upstream{}}
+	svc := &c13Services{stacks: map[string]*c13Stack{}, up: &c13Upstream{}}
 	log := zerolog.Nop()
+
+	// a loopback port nobody listens on (handed out by the kernel, then released)
+	dead, err := verifListen("127.0.0.1:0")
+	if err != nil {
+		return nil, err
+	}
+
+	deadAddr := dead.Addr().String()
+	_ = dead.Close()
 
 	svc.upstream = httptest.NewServer(http.HandlerFunc(func(rw http.ResponseWriter, req *http.Request) {
 		svc.up.mu.Lock()
@@ -437,7 +509,12 @@ func c13Start() (*c13Services, error) {
 	}))
 
 	mconf := &config.Configuration{Prototypes: &config.MechanismPrototypes{
-		Authenticators: []config.Mechanism{{ID: "c13-anon", Type: "anonymous"}},
+		Authenticators: []config.Mechanism{
+			{ID: "c13-anon", Type: "anonymous"}, {ID: "c13-deny", Type: "unauthorized"},
+		},
+		Contextualizers: []config.Mechanism{{ID: "c13-comm", Type: "generic", Config: config.MechanismConfig{
+			"endpoint": map[string]any{"url": "http://" + deadAddr + "/c13", "method": "GET"},
+		}}},
 		Authorizers: []config.Mechanism{{ID: "c13-cel", Type: "cel", Config: config.MechanismConfig{
 			"expressions": []any{map[string]any{"expression": "true"}},
 		}}},
@@ -454,47 +531,71 @@ func c13Start() (*c13Services, error) {
 
 	svc.mechs = &c13Factory{real}
 
-	sc := config.ServiceConfig{Host: "127.0.0.1"}
-	conf := &config.Configuration{Serve: config.ServeConfig{Decision: sc, Proxy: sc}}
-
-	tlsCfg, err := c13TLSConfig()
-	if err != nil {
+	if svc.tlsCfg, err = c13TLSConfig(); err != nil {
 		return nil, err
 	}
 
+	return svc, nil
+}
+
+// stack starts (once per response configuration) the real decision, proxy and Envoy ext_authz services
+func (svc *c13Services) stack(rc *c13Respond) (*c13Stack, error) {
+	key := fmt.Sprintf("%+v", *rc)
+	if st, ok := svc.stacks[key]; ok {
+		return st, nil
+	}
+
+	var respond config.RespondConfig
+
+	respond.Verbose = rc.Verbose
+	respond.With.Accepted.Code = rc.Codes.Accepted
+	respond.With.ArgumentError.Code = rc.Codes.Argument
+	respond.With.AuthenticationError.Code = rc.Codes.Authentication
+	respond.With.AuthorizationError.Code = rc.Codes.Authorization
+	respond.With.CommunicationError.Code = rc.Codes.Communication
+	respond.With.InternalError.Code = rc.Codes.Internal
+	respond.With.NoRuleError.Code = rc.Codes.NoRule
+
+	st := &c13Stack{decSwitch: &c13Switch{}, prxSwitch: &c13Switch{}}
+	log := zerolog.Nop()
+	sc := config.ServiceConfig{Host: "127.0.0.1", Respond: respond}
+	conf := &config.Configuration{Serve: config.ServeConfig{Decision: sc, Proxy: sc}}
+
 	serve := func(srv *http.Server) (string, string, error) {
-		l1, err := net.Listen("tcp", "127.0.0.1:0")
+		l1, err := verifListen("127.0.0.1:0")
 		if err != nil {
 			return "", "", err
 		}
 
-		l2, err := net.Listen("tcp", "127.0.0.1:0")
+		l2, err := verifListen("127.0.0.1:0")
 		if err != nil {
 			return "", "", err
 		}
 
 		go func() { _ = srv.Serve(l1) }()
-		go func() { _ = srv.Serve(tls.NewListener(l2, tlsCfg)) }()
+		go func() { _ = srv.Serve(tls.NewListener(l2, svc.tlsCfg)) }()
 
 		return l1.Addr().String(), l2.Addr().String(), nil
 	}
 
-	if svc.decision, svc.decisionTLS, err = serve(
-		decision.VerifC13NewService(conf, &noop.Cache{}, log, svc.decSwitch)); err != nil {
+	var err error
+
+	if st.decision, st.decisionTLS, err = serve(
+		decision.VerifC13NewService(conf, &noop.Cache{}, log, st.decSwitch)); err != nil {
 		return nil, err
 	}
 
-	if svc.proxy, svc.proxyTLS, err = serve(
-		proxy.VerifC13NewService(conf, &noop.Cache{}, log, svc.prxSwitch)); err != nil {
+	if st.proxy, st.proxyTLS, err = serve(
+		proxy.VerifC13NewService(conf, &noop.Cache{}, log, st.prxSwitch)); err != nil {
 		return nil, err
 	}
 
-	gl, err := net.Listen("tcp", "127.0.0.1:0")
+	gl, err := verifListen("127.0.0.1:0")
 	if err != nil {
 		return nil, err
 	}
 
-	gsrv := grpcv3.VerifC13NewService(conf, &noop.Cache{}, log, svc.decSwitch)
+	gsrv := grpcv3.VerifC13NewService(conf, &noop.Cache{}, log, st.decSwitch)
 	go func() { _ = gsrv.Serve(gl) }()
 
 	conn, err := grpc.NewClient(gl.Addr().String(), grpc.WithTransportCredentials(insecure.NewCredentials()))
@@ -502,9 +603,10 @@ func c13Start() (*c13Services, error) {
 		return nil, err
 	}
 
-	svc.envoy = envoy_auth.NewAuthorizationClient(conn)
+	st.envoy = envoy_auth.NewAuthorizationClient(conn)
+	svc.stacks[key] = st
 
-	return svc, nil
+	return st, nil
 }
 
 // ---------------------------------------------------------------------------------------------------------------
@@ -657,27 +759,29 @@ func c13Load(c map[string]any, svc *c13Services, mode config.OperationMode) (rul
 // carriers
 
 // c13WireHTTP writes the logical request as an HTTP/1.1 message and reads one response.
+// c13BodyLen: number of body bytes of the last response read by c13WireHTTP
+var c13BodyLen int64 //nolint:gochecknoglobals
+
 func c13WireHTTP(addr string, lr *c13Req) (*http.Response, error) {
 	var (
 		conn net.Conn
 		err  error
 	)
 
-	d := &net.Dialer{Timeout: 10 * time.Second}
-
-	if lr.TLS {
-		conn, err = tls.DialWithDialer(d, "tcp", addr, &tls.Config{
-			InsecureSkipVerify: true, NextProtos: []string{"http/1.1"}, //nolint:gosec
-		})
-	} else {
-		conn, err = d.Dial("tcp", addr)
-	}
-
+	raw, err := (&net.Dialer{Timeout: 10 * time.Second}).Dial("tcp", addr)
 	if err != nil {
 		return nil, err
 	}
 
-	defer conn.Close()
+	// no TIME-WAIT on the client side: the port goes back to the kernel at once
+	defer verifCloseNow(raw)
+
+	conn = raw
+	if lr.TLS {
+		conn = tls.Client(raw, &tls.Config{
+			InsecureSkipVerify: true, NextProtos: []string{"http/1.1"}, //nolint:gosec
+		})
+	}
 
 	_ = conn.SetDeadline(time.Now().Add(20 * time.Second))
 
@@ -710,7 +814,7 @@ func c13WireHTTP(addr string, lr *c13Req) (*http.Response, error) {
 		return nil, err
 	}
 
-	_, _ = io.Copy(io.Discard, resp.Body)
+	c13BodyLen, _ = io.Copy(io.Discard, resp.Body)
 	_ = resp.Body.Close()
 
 	return resp, nil
@@ -771,32 +875,14 @@ func c13ToCheck(lr *c13Req) (*envoy_auth.CheckRequest, map[string]any) {
 // ---------------------------------------------------------------------------------------------------------------
 // observables
 
-func c13Class(status int) string {
-	switch status {
-	case http.StatusOK:
-		return "ok"
-	case http.StatusBadRequest:
-		return "argument"
-	case http.StatusUnauthorized:
-		return "authentication"
-	case http.StatusForbidden:
-		return "authorization"
-	case http.StatusNotFound:
-		return "norule"
-	case http.StatusInternalServerError:
-		return "internal"
-	}
-
-	return "status-" + strconv.Itoa(status)
-}
-
 const (
 	c13HeaderPrefix = "X-C13-"
 	c13CookiePrefix = "c13u-"
 )
 
-// c13UpHeaders: pipeline headers as a downstream HTTP consumer sees them (several field lines = comma-joined list)
-func c13UpHeaders(h http.Header) [][]string {
+// c13NS: the headers of the reserved namespace as an HTTP consumer sees them (several field lines = one
+// comma-joined list), sorted by canonical name
+func c13NS(h http.Header) [][]string {
 	res := [][]string{}
 
 	for k, v := range h {
@@ -808,6 +894,16 @@ func c13UpHeaders(h http.Header) [][]string {
 	sort.Slice(res, func(i, j int) bool { return res[i][0] < res[j][0] })
 
 	return res
+}
+
+// c13ClientHeaders: the header lines of the client, as the hop in front of the upstream application holds them
+func c13ClientHeaders(lr *c13Req) http.Header {
+	h := http.Header{}
+	for _, l := range lr.Headers {
+		h.Add(c13Bytes(l[0]), c13Bytes(l[1]))
+	}
+
+	return h
 }
 
 func c13UpCookies(cs []*http.Cookie) [][]string {
@@ -836,25 +932,30 @@ func runEntryView(c map[string]any) (any, error) {
 	var (
 		lr  c13Req
 		spy c13Spy
+		rc  c13Respond
 	)
 
-	data, err := json.Marshal(c["req"])
+	for key, dst := range map[string]any{"req": &lr, "spy": &spy, "respond": &rc} {
+		if c[key] == nil {
+			continue
+		}
+
+		data, err := json.Marshal(c[key])
+		if err != nil {
+			return nil, err
+		}
+
+		if err = json.Unmarshal(data, dst); err != nil {
+			return nil, err
+		}
+	}
+
+	st, err := svc.stack(&rc)
 	if err != nil {
 		return nil, err
 	}
 
-	if err = json.Unmarshal(data, &lr); err != nil {
-		return nil, err
-	}
-
-	if data, err = json.Marshal(c["spy"]); err != nil {
-		return nil, err
-	}
-
-	if err = json.Unmarshal(data, &spy); err != nil {
-		return nil, err
-	}
-
+	svc.c13Stack = st
 	res := map[string]any{}
 
 	// --- decision operation mode: decision service and Envoy ext_authz service
@@ -875,9 +976,21 @@ func runEntryView(c map[string]any) (any, error) {
 	if err != nil {
 		res["decision"] = map[string]any{"dec": "transport", "why": err.Error()}
 	} else {
-		out := map[string]any{"dec": c13Class(resp.StatusCode), "spy": c13TakeSpy(spy), "up": nil}
-		if resp.StatusCode == http.StatusOK {
-			out["up"] = map[string]any{"headers": c13UpHeaders(resp.Header), "cookies": c13UpCookies(resp.Cookies())}
+		out := map[string]any{
+			"dec": rc.class(resp.StatusCode), "status": resp.StatusCode, "spy": c13TakeSpy(spy), "up": nil,
+			"body": c13BodyLen != 0,
+		}
+
+		if resp.StatusCode == c13Or(rc.Codes.Accepted, http.StatusOK) {
+			// the API gateway in front of the upstream application replaces the headers of the request by those
+			// of the response of the decision service
+			sees := c13ClientHeaders(&lr)
+			for k, v := range resp.Header {
+				sees[http.CanonicalHeaderKey(k)] = v
+			}
+
+			out["dec"] = "ok"
+			out["up"] = map[string]any{"headers": c13NS(sees), "cookies": c13UpCookies(resp.Cookies())}
 		}
 
 		res["decision"] = out
@@ -895,10 +1008,11 @@ func runEntryView(c map[string]any) (any, error) {
 
 	switch {
 	case err != nil:
-		st, _ := status.FromError(err)
-		res["envoy"] = map[string]any{"dec": "rpcerr-" + st.Code().String(), "spy": c13TakeSpy(spy), "up": nil}
+		stt, _ := status.FromError(err)
+		res["envoy"] = map[string]any{"dec": "rpcerr-" + stt.Code().String(), "spy": c13TakeSpy(spy), "up": nil}
 	case cresp.GetOkResponse() != nil:
-		hdr := http.Header{}
+		// Envoy: "by leaving append as false, the filter will either add a new header, or override an existing one"
+		sees := c13ClientHeaders(&lr)
 
 		var cookies []*http.Cookie
 
@@ -914,16 +1028,22 @@ func runEntryView(c map[string]any) (any, error) {
 				continue
 			}
 
-			hdr.Add(k, v)
+			if o.GetAppend().GetValue() {
+				sees.Add(k, v)
+			} else {
+				sees.Set(k, v)
+			}
 		}
 
 		res["envoy"] = map[string]any{
-			"dec": "ok", "spy": c13TakeSpy(spy),
-			"up": map[string]any{"headers": c13UpHeaders(hdr), "cookies": c13UpCookies(cookies)},
+			"dec": "ok", "status": http.StatusOK, "spy": c13TakeSpy(spy), "body": false,
+			"up": map[string]any{"headers": c13NS(sees), "cookies": c13UpCookies(cookies)},
 		}
 	case cresp.GetDeniedResponse() != nil:
+		code := int(cresp.GetDeniedResponse().GetStatus().GetCode())
 		res["envoy"] = map[string]any{
-			"dec": c13Class(int(cresp.GetDeniedResponse().GetStatus().GetCode())), "spy": c13TakeSpy(spy), "up": nil,
+			"dec": rc.class(code), "status": code, "spy": c13TakeSpy(spy), "up": nil,
+			"body": len(cresp.GetDeniedResponse().GetBody()) != 0,
 		}
 	default:
 		res["envoy"] = map[string]any{"dec": "empty-response", "spy": c13TakeSpy(spy), "up": nil}
@@ -953,11 +1073,19 @@ func runEntryView(c map[string]any) (any, error) {
 	if err != nil {
 		res["proxy"] = map[string]any{"dec": "transport", "why": err.Error()}
 	} else {
-		out := map[string]any{"dec": c13Class(resp.StatusCode), "spy": c13TakeSpy(spy), "up": nil}
+		out := map[string]any{
+			"dec": rc.class(resp.StatusCode), "status": resp.StatusCode, "spy": c13TakeSpy(spy), "up": nil,
+			"body": c13BodyLen != 0,
+		}
 
 		svc.up.mu.Lock()
 		if svc.up.hits > 0 {
-			out["up"] = map[string]any{"headers": c13UpHeaders(svc.up.headers), "cookies": c13UpCookies(svc.up.cookies)}
+			// the request reached the upstream application, whose answer (200) was relayed
+			if resp.StatusCode == http.StatusOK {
+				out["dec"] = "ok"
+			}
+
+			out["up"] = map[string]any{"headers": c13NS(svc.up.headers), "cookies": c13UpCookies(svc.up.cookies)}
 		}
 
 		out["hits"] = svc.up.hits
